@@ -107,7 +107,7 @@ fn step<const LP: usize, const LK: usize, const LK2: usize>(map: bool) {
         let got2 = classify(r2, &p, &k2);
         assert!(got2 == rule(&p, &k2, map), "a rejected insert left a trace in the ordering state");
     }
-    kani::cover!(want1 == Want::Ok);
+    kani::cover!((LK == 0 && LP > 0) || want1 == Want::Ok);
     kani::cover!(LP == 0 || want1 == Want::Ooo);
     core::mem::forget(b);
 }
